@@ -1820,7 +1820,17 @@ impl SysComp {
                     Some(f) if f == b => {
                         q.pop_front();
                     }
-                    _ => mon.fail("C09", "rx-order", format!("uplink {id}: the shell was handed a datagram of {} bytes that is not the oldest one outstanding on that uplink's socket", b.len())),
+                    other => {
+                        mon.fail("C09", "rx-order", format!("uplink {id}: the shell was handed a datagram of {} bytes that is not the oldest one outstanding on that uplink's socket", b.len()));
+                        // C14: "RTT comes only from echoes": a keepalive-typed datagram that reaches the shell ALTERED (padded,
+                        // cut short of its receive buffer) is not the echo that arrived - a sample taken from it is not a
+                        // sample of an echo
+                        if let Some(f) = other {
+                            if f.len() >= 2 && get_packet_type(f) == Some(SRTLA_TYPE_KEEPALIVE) && (b.starts_with(f) || f.starts_with(b)) {
+                                mon.fail("C14", "rx-echo-altered", format!("uplink {id}: a keepalive echo of {} bytes arrived on the socket, the shell was handed {} bytes", f.len(), b.len()));
+                            }
+                        }
+                    }
                 }
             }
             if b.len() >= 2 && pre_ids.contains(id) {
